@@ -554,3 +554,35 @@ def replay(prop, path):
     except Exception as e:
         print("replay: no executable witness recorded; re-run ./check", prop, "to re-check the obligation", repr(e))
         return 1
+
+def vacuity_probe(root, module, prop):
+    """Thorough tier, sequential (the generator flag is global): the unit is generated once more with every postcondition replaced by `false`
+    (same preconditions, same stubs).  Each function under contract must then FAIL to verify; one that verifies has a contradictory
+    precondition or calls a contradictory trusted stub on every path — its real proof would be vacuous.  Returns the list of such functions."""
+    um = load_unit(module)
+    if getattr(um, "KIND", "verus") != "verus":
+        return []
+    gen.VACUITY = True
+    try:
+        text, meta = gen.generate(um.UNIT, root, rules)
+    except Exception:
+        return []
+    finally:
+        gen.VACUITY = False
+    outdir = out_dir(root, prop)
+    os.makedirs(outdir, exist_ok=True)
+    path = os.path.join(outdir, f"{module}.vac.rs")
+    with open(path, "w") as f:
+        f.write(text)
+    r = verus.run(path, um.UNIT.verus_args, timeout=600, rlimit=3)
+    if r["status"] in ("timeout", "compile-error"):
+        return []
+    names = {it["item"].split("::")[-1] for it in meta["items"] if it.get("kind") == "fn" and it.get("has_contract") and not it.get("contract_only")}
+    renamed = {it.get("rename") for it in meta["items"] if it.get("rename")}
+    vac = []
+    for fb in r.get("functions", []):
+        short = fb["function"].split("::")[-1]
+        if fb["success"] and (short in names or short in renamed):
+            vac.append(fb["function"])
+    return vac
+
